@@ -343,7 +343,18 @@ theorem goS_equiv : ∀ (M : MetaMat Rat) (tr : Bool), Equiv (M.goSQ tr) (M.goQ 
       | some al => exact Banded.applyAxpy_size _ A x y r r' al ali h
     | true =>
       cases ax with
-      | none => simp [goQ, go, Banded.apply] at h
+      | none =>
+        -- apply_transposed(r, x): only the empty-result early return comes back (then r' = r)
+        simp only [goQ, go, Banded.apply, if_true] at h
+        by_cases hc : (r.size != A.cols || x.size != A.rows) = true
+        · simp [hc] at h
+        · have hc' := hc
+          simp only [Bool.or_eq_true, bne_iff_ne, ne_eq, not_or, Decidable.not_not] at hc'
+          simp only [hc, Bool.false_eq_true, if_false] at h
+          split at h
+          · simp only [Option.some.injEq] at h
+            rw [← h]; simpa using hc'.1
+          · simp at h
       | some al =>
         -- only the early-out returns: r' is r or y, whose sizes were checked
         simp only [goQ, go, Banded.applyAxpy, if_true] at h
@@ -353,7 +364,8 @@ theorem goS_equiv : ∀ (M : MetaMat Rat) (tr : Bool), Equiv (M.goSQ tr) (M.goQ 
           simp only [Bool.or_eq_true, bne_iff_ne, ne_eq, not_or, Decidable.not_not] at hc'
           simp only [hc, Bool.false_eq_true, if_false] at h
           split at h
-          · simp at h
+          · simp only [Option.some.injEq] at h
+            rw [← h]; simpa using hc'.1.1
           · split at h
             · simp only [Option.some.injEq] at h
               rw [← h]; cases ali <;> simp [hc'.1.1, hc'.2]
